@@ -26,4 +26,11 @@ PROPS = {
         lean_core=["Props.GenTie.Params", "Props.C05"], lean_code=["Props.GenTie.Target", "Props.C05Code"],
         gen_funcs=["calculate_new_target", "select_block_height"], harness="c05",
         assumptions=["as C01", "elapsed time passed to calculate_new_target is non-negative (timestamps increase along validated chains)"]),
+    "C03": dict(
+        lean_core=["Props.C03"], lean_code=[], gen_funcs=[], harness="c03",
+        assumptions=["immutables.Map behaves as a finite map; iteration order is not observed",
+                     "histories: parents before children, distinct ids (WFArrivals)"]),
+    "C04": dict(
+        lean_core=["Props.C04"], lean_code=[], gen_funcs=[], harness="c04",
+        assumptions=["histories: parents before children, distinct ids, height = parent's + 1 (WFArrivals)"]),
 }
